@@ -313,9 +313,11 @@ class SpecGen:
             if rng.random() < k.p_dummy and not reached_optional and (not lines or rng.random() < 0.5):
                 t = rng.choice(["byte", "char", "short"])
                 v = rng.randrange(0, 253)
+                if rng.random() < 0.1:
+                    t, v = "string", rng.choice(["x", "no", "dummy"])
                 dc = f"<comment>{escape(self.comment())}</comment>" if rng.random() < k.p_comment else ""
                 lines.append(f'{indent}<dummy type="{t}">{v}{dc}</dummy>')
-                note(False, 0, {"byte": 1, "char": 1, "short": 2}[t], True)
+                note(False, 0, {"byte": 1, "char": 1, "short": 2}.get(t), t != "string")
                 ended = True
                 continue
             optional = reached_optional or (rng.random() < k.p_optional and i >= n - 1 and not in_case_blocks_optional(in_case))
@@ -408,6 +410,10 @@ class SpecGen:
             s = rng.choice(["abc", "Hello", "x", "EO v28", "ok!"])
             stype = rng.choice(["string", "encoded_string"])
             named = f'name="{name()}" ' if rng.random() < 0.5 else ""
+            if rng.random() < 0.12:
+                # a constant string without a length attribute: runs to the end of the chunk / data
+                return ([f'{indent}<field {named}type="{stype}">{s}</field>'],
+                        dict(first_consumes=False, min_size=0, fixed=None, bounded=False))
             pad = ' padded="true"' if rng.random() < 0.3 else ""
             return ([f'{indent}<field {named}type="{stype}" length="{len(s)}"{pad}>{s}</field>'],
                     dict(first_consumes=True, min_size=len(s), fixed=len(s), bounded=True))
